@@ -8,7 +8,7 @@ class SpecC02(e1_driver.Spec):
     prop = 'C02'
     monitor = mon.MonC02
     profile = dict(
-        p_pool_l=0.15, p_pool_s=0.15,
+        p_pool_l=0.15, p_pool_s=0.15, p_frequent_bounds=0.2,
         family=None,
         fault_kinds=['stop_resume', 'stop_resume', 'kill', 'kill', 'slice',
                      'toggle', 'toggle', 'toggle', 'timeout', 'observe'])
